@@ -8,6 +8,10 @@ from vf.ref.ecref import SECP256K1 as S, ecdsa_verify
 from vf.runner import Acc, filler
 
 PROPERTY = "C01"
+# E6: seq_ops() indices of the operations that are interrupted at every line (vf/seqexplore.interrupted); probes = the whole alphabet
+INTERRUPT_X = [0, 10]
+INTERRUPT_PROBES = None
+CONCUR_FILES = ('bits/ecmath.py', 'bits/utils.py', 'bits/keys.py')
 LEVEL = "exploration"
 ENGINES = ["E2-small-curve", "E1-scope-enumerator", "E3-choice-explorer"]
 RULE = ("layer A (small curves, random source scripted): ecmath.sign for EVERY key d in [1,n-1] x EVERY digest z in "
@@ -24,6 +28,7 @@ ASSUMPTIONS = [
 ]
 OBLIGATIONS = {
     "long_history": "operations executed in one long history (every key of a 199-element group, forward / forward / reverse)",
+    "interrupted_calls": "interruption points explored (an earlier call cut short by an asynchronous exception, then ordinary calls)",
     "history_sequences": "operation sequences (non-initial process states) explored",
     "concurrent_first_calls": "interleavings of two concurrent first sign() calls explored",
     "draw_zero": "a nonce draw of 0 was offered (must be re-drawn)",
@@ -242,6 +247,9 @@ def run_case(kind, case):
         return chk_reuse(case)
     if kind == "concur":
         return chk_concur(case)
+    if kind == "interrupted":
+        from vf import seqexplore
+        return seqexplore.replay_interrupted(run_case, case)
     if kind == "seq":
         from vf import seqexplore
         return seqexplore.replay(run_case, case)
@@ -357,6 +365,8 @@ def jobs(tier, seed):
     js += seq_jobs(4, curve=list(smallcurve.TABLE[0]), weight=4)
     from vf.runner import long_jobs
     js += long_jobs(curve=list(smallcurve.TABLE[5]))
+    from vf.runner import interrupt_jobs
+    js += interrupt_jobs(len(INTERRUPT_X), curve=list(smallcurve.TABLE[0]))
     for i in range(6):
         js.append({"name": f"concurrent-sign/{i}", "part": "concur", "curve": list(smallcurve.TABLE[0]), "idx": i, "weight": 6})
     return js
@@ -366,6 +376,11 @@ def run_job(job):
     if job["part"] == "longhist":
         from vf.runner import run_long_job
         return run_long_job(job, long_ops(job), run_case)
+    if job["part"] == "interrupted":
+        from vf.runner import run_interrupt_job
+        ops = [o for o in seq_ops(dict(job, part="interrupted", shard=[0, 1]))]
+        probes = ops if INTERRUPT_PROBES is None else [ops[i] for i in INTERRUPT_PROBES]
+        return run_interrupt_job(job, [ops[i] for i in INTERRUPT_X], probes, run_case, CONCUR_FILES)
     if job["part"] == "seq":
         from vf.runner import run_seq_job
         return run_seq_job(job, seq_ops(job), run_case)
